@@ -237,10 +237,21 @@ pub fn unit(seed: u64, ctx: &mut Ctx, ctl: &mut UnitCtl) {
         ctl.after_case(ctx, || Scenario::WFault(scn.clone()));
     };
     let ndev = if w.with_shx { 2 } else { 1 };
+    // which operations of the undisturbed run are seeks (a seek may also move and then fail)
+    let seek_ops: [Vec<u32>; 2] = {
+        let world = World::new(Plan::default());
+        let _ = run_writer(&world, &w);
+        let wb = world.borrow();
+        let of = |d: usize| wb.events_of(d).iter().enumerate().filter(|(_, ei)| wb.log[**ei].kind == OpKind::Seek).map(|(k, _)| k as u32).collect::<Vec<u32>>();
+        [of(SHP), of(SHX)]
+    };
     for dev in 0..ndev {
         for k in 0..g.ops[dev] {
             let ek = kinds[(k as usize + dev) % 4];
-            for (kind, persistent) in [(FaultKind::Err(ek), false), (FaultKind::Err(ek), true), (FaultKind::Zero, false), (FaultKind::Eintr, false)] {
+            for (kind, persistent) in [(FaultKind::Err(ek), false), (FaultKind::Err(ek), true), (FaultKind::Zero, false), (FaultKind::Eintr, false), (FaultKind::ErrMoved(ek), false)] {
+                if matches!(kind, FaultKind::ErrMoved(_)) && !seek_ops[dev].contains(&k) {
+                    continue;
+                }
                 let mut plan = Plan::default();
                 plan.faults.push(Fault { dev: dev as u8, at: k, kind, persistent });
                 case(plan, ctx, ctl);
